@@ -15,7 +15,12 @@ import numpy as np
 
 from vf import pan, ref
 
-MAX_VOX = 400_000  # size gate for the python-set reference
+MAX_VOX = 400_000  # size gate for the python-set reference ...
+MAX_FG = 60_000  # ... which applies to the foreground: sparse volumes of any size are judged
+
+
+def too_big(*arrs):
+    return any(a.size > MAX_VOX and int(np.count_nonzero(a)) > MAX_FG for a in arrs)
 
 
 class State:
@@ -75,7 +80,7 @@ def _wrap_inner_match(cls):
             raise
         M = labelmap_dict(lm)
         S.last_match = {"M": M, "order": list(M.items()), "matcher": self, "pred": pred, "ref": refa}
-        if pred.size <= MAX_VOX:
+        if not too_big(pred, refa):
             if want03:
                 check_naive_matching(self, pred, refa, M)
             if want14:
@@ -269,7 +274,7 @@ def _wrap_outer_match(base):
         S.last_match = None
         out = orig(self, unmatched_instance_pair, *a, **k)
         lm = S.last_match
-        if in_pred.size > MAX_VOX:
+        if too_big(in_pred):
             S.ctx.count("skipped_size")
             return out
         if lm is None:
@@ -352,7 +357,7 @@ def _wrap_approx(base):
         in_pred = np.array(semantic_pair.prediction_arr, copy=True)
         in_ref = np.array(semantic_pair.reference_arr, copy=True)
         out = orig(self, semantic_pair, *a, **k)
-        if in_pred.size > MAX_VOX:
+        if too_big(in_pred, in_ref):
             S.ctx.count("skipped_size")
             return out
         if (in_pred < 0).any() or (in_ref < 0).any():
@@ -423,7 +428,7 @@ def _wrap_metric(cls):
         if a or k:
             S.ctx.count("metric.skipped_extra_args")
             return val
-        if ra.size > MAX_VOX:
+        if too_big(ra, pa):
             S.ctx.count("skipped_size")
             return val
         check_metric_call(name, ra, pa, ref_instance_idx, pidx, val)
@@ -531,7 +536,7 @@ def _wrap_panoptic_evaluate(mod):
         S.last_match = None
         out = orig(input_pair, *a, **k)
         res = out[0]
-        if pred.size > MAX_VOX:
+        if too_big(pred, refa):
             S.ctx.count("skipped_size")
             return out
         try:
